@@ -210,6 +210,45 @@ def check_range(case: t.Any, ctx: Ctx) -> None:
         ctx.fail('convert-fixed-point', 'pane.types.Range', f"x = {x!r}; convert(x, Range[{num}]) = {y!r}")
 
 
+# ---- compiled patterns carrying flags (known finding D72) ----------------------------------------
+
+@st.composite
+def pattern_cases(draw) -> t.Any:
+    text = draw(st.sampled_from(tg.GOOD_PATTERNS))
+    flags = draw(st.lists(st.sampled_from(['I', 'M', 'S', 'X', 'A']), max_size=2, unique=True))
+    where = draw(st.sampled_from(['bare', 'list', 'dict-key', 'field']))
+    return [text, flags, where]
+
+
+def check_pattern(case: t.Any, ctx: Ctx) -> None:
+    import re
+    import pane
+    (text, flags, where) = case
+    fl = 0
+    for f in flags:
+        fl |= getattr(re, f)
+    x = re.compile(text, fl)
+    ctx.label(f"pattern-flags:{'+'.join(flags) or 'none'}", f"pattern-in:{where}")
+    ctx.nontrivial(bool(flags))
+    (T, val, get) = {
+        'bare': (re.Pattern, x, lambda y: y),
+        'list': (t.List[re.Pattern], [x], lambda y: y[0]),
+        'dict-key': (t.Dict[re.Pattern, int], {x: 1}, lambda y: next(iter(y))),
+        'field': (holder(tg.node(('s', 'rePattern'))), None, lambda y: y.f),
+    }[where]
+    ctx.evaluated()
+    if where == 'field':
+        (k, y) = outcome(lambda: T(f=x))
+    else:
+        (k, y) = outcome(lambda: pane.convert(val, T))
+    if k != 'ok':
+        ctx.fail('convert-accepts-typed', 'pattern-flags', f"x = {x!r} ({where}); convert raised {type(y).__name__}: {str(y)[:200]}")
+        return
+    got = get(y)
+    if got.pattern != x.pattern or got.flags != x.flags:
+        ctx.fail('convert-fixed-point', 'pattern-flags' if flags else 'pattern', f"x = {x!r} ({where}); convert gives {got!r}: the flags are lost")
+
+
 def render(case: t.Any) -> t.Any:
     r = gen.render_case(case)
     r['native'] = bool(case[3])
@@ -222,6 +261,8 @@ def suites(tier: str) -> t.List[Suite]:
     return [
         Suite('fixedpoint', check, strategy=lambda: cases(gen.all_type_specs(leaves)), examples=8000 if big else 600,
               budget_s=480 if big else 40, render=render),
+        Suite('pattern-flags', check_pattern, strategy=pattern_cases, examples=400 if big else 40, budget_s=60 if big else 10,
+              render=lambda c: {'pattern': c[0], 'flags': c[1], 'where': c[2]}),
         Suite('overlap-unions', check, strategy=lambda: cases(gen.overlap_union_specs()), examples=4000 if big else 450, budget_s=300 if big else 30, render=render),
         Suite('range', check_range, strategy=range_cases, examples=300 if big else 40, budget_s=60),
     ]
